@@ -514,13 +514,13 @@ func (fr *Frame) invoke(recv Val, m *types.Func, args []Val, st *State, pos toke
 	}
 	key := "iface:" + iname + "." + m.Name()
 	if spec, ok := fx.eng.contracts.Funcs[key]; ok {
-		return fr.callIfaceSpec(spec, key, recv, m, args, st, pos)
+		return fr.callIfaceSpec(spec, key, iname, recv, m, args, st, pos)
 	}
 	unsupp("interface method call %s without a contract", key)
 	return nil
 }
 
-func (fr *Frame) callIfaceSpec(spec *FuncSpec, key string, recv Val, m *types.Func, args []Val, st *State, pos token.Pos) *Val {
+func (fr *Frame) callIfaceSpec(spec *FuncSpec, key string, iname string, recv Val, m *types.Func, args []Val, st *State, pos token.Pos) *Val {
 	fx := fr.fx
 	fx.usedSpecs[key] = true
 	fx.trustedCalls[key] = true
@@ -567,7 +567,24 @@ func (fr *Frame) callIfaceSpec(spec *FuncSpec, key string, recv Val, m *types.Fu
 	for _, c := range spec.Ensures {
 		fx.assume(st.guard, post.eval(c.E).asBool())
 	}
+	fx.logCall(st, iname+"."+m.Name(), all, resVals)
 	return tupleOf(sig, resVals)
+}
+
+// logCall records an interface-method call in the ghost call log: number of
+// calls so far, and the arguments and results of the latest one.
+func (fx *FnCtx) logCall(st *State, name string, args []Val, res []Val) {
+	intSh := shapeOf(types.Typ[types.Int])
+	cnt := fx.ghostCell(st, "calls:"+name, intSh, mkInt(intSh, "0"))
+	st.cells[cnt] = mkInt(intSh, fx.define("ncalls", sInt, add(st.cells[cnt].t(), "1")))
+	for i, a := range args {
+		c := fx.ghostCell(st, fmt.Sprintf("arg:%s:%d", name, i), a.sh, a)
+		st.cells[c] = a
+	}
+	for i, r := range res {
+		c := fx.ghostCell(st, fmt.Sprintf("res:%s:%d", name, i), r.sh, r)
+		st.cells[c] = r
+	}
 }
 
 // ---------------------------------------------------------------------------
